@@ -91,6 +91,24 @@ class World(object):
         self.transport = LoopbackTransport(self.fx)
         self.proxy = jsonrpclib.ServerProxy("http://loop/", transport=self.transport, version=version, config=self.cfg)
 
+    def http(self):
+        import jsonrpclib
+        from vf import servers
+        if getattr(self, "srv", None) is None:
+            self.srv = servers.Srv("simple", "tcp", self.fx)
+            self.srv.start()
+            self.http_proxy = jsonrpclib.ServerProxy(self.srv.url, version=self.version, config=self.cfg)
+        return self.http_proxy
+
+    def close(self):
+        if getattr(self, "srv", None) is not None:
+            try:
+                self.http_proxy("close")()
+            except Exception:  # noqa
+                pass
+            self.srv.stop()
+            self.srv = None
+
     def add(self, shape):
         shape.build()
         self.shapes.append(shape)
@@ -292,6 +310,10 @@ def check_value(ctx, world, x, position, path, desc):
                     ctx.violate("rpc-param-not-delivered:%s" % tag, case, {"executions": len(ran)})
                     return
                 back = ran[0][1]["kwargs"]["v"]
+            elif path == "rpc-http-result":
+                # through a real HTTP server and the real transport (a reply of several read chunks)
+                world.planned.append(x)
+                back = world.http().take()
             else:
                 world.planned.append(x)
                 back = world.proxy.take()
@@ -333,6 +355,16 @@ def run(ctx):
                         if position != "top" and rng.random() < 0.5:
                             continue
                         check_value(ctx, world, x, position, path, desc)
+        # objects travelling as results next to a long text, over real HTTP: the reply spans several read chunks of the
+        # transport and blanks fall on their boundaries
+        if w % 4 == 0:
+            for shape in order[:2]:
+                obj = world.instance(shape, 1)
+                words = [rng.choice(["lorem", "ipsum", "dolor", "sit", "amet", "a", "été", "x" * rng.randint(1, 9)])
+                         for _ in range(rng.randint(600, 1200))]
+                check_value(ctx, world, {"prose": " ".join(words), "pad": " " * rng.choice([1023, 1024, 2048, 3000]),
+                                         "obj": obj}, "dict", "rpc-http-result", desc)
+            world.close()
         # enum members and Decimals on their own and in containers
         for rep in range(ctx.pick(4, 12)):
             v = world.value(2)
